@@ -149,6 +149,14 @@ pub fn gen_session(ch: &mut Chooser) -> SessionCase {
         known_values.push((forms.len(), "(2 3)".to_string()));
         forms.push(Form::Raw("(list (my-inc 1) (my-inc (my-inc 1)))".into()));
     }
+    // an import declaration that comes too late (after definitions) is an error wherever it is entered, and binds nothing:
+    // the program's own caddr stays
+    if ch.chance(1, 2) {
+        forms.push(Form::Raw("(define (caddr x) 'mine)".into()));
+        forms.push(Form::Raw("(import (only (scheme base) caddr))".into()));
+        known_values.push((forms.len(), "mine".to_string()));
+        forms.push(Form::Raw("(caddr '(1 2 3))".into()));
+    }
     // a definition and, in the same submission, a form that is not lexically well formed: the definition has been made
     if ch.chance(1, 2) {
         force_join.push(forms.len());
